@@ -315,5 +315,12 @@ func TestC19Sweep(t *testing.T) {
 			cases = append(cases, c19Case{Kind: "transform", Exp: e, Input: "impulse", Pos: 1<<uint(e) - 1, Procs: p}, c19Case{Kind: "transform", Exp: e, Input: "pm1", Seed: uint64(p), Procs: p})
 		}
 	}
+	// sizes above 2^20 (table-free code paths, chunked loops): random input, impulses at odd positions in the upper half
+	for _, e := range []int{21, 22} {
+		N := 1 << uint(e)
+		cases = append(cases, c19Case{Kind: "transform", Exp: e, Input: "random", Seed: uint64(e)},
+			c19Case{Kind: "transform", Exp: e, Input: "impulse", Pos: N/2 + 3}, c19Case{Kind: "transform", Exp: e, Input: "impulse", Pos: 3*N/4 + 1, Procs: 3},
+			c19Case{Kind: "transform", Exp: e, Input: "pm1", Seed: uint64(e + 1), Procs: 5})
+	}
 	enumerate(t, "C19", cases, checkC19)
 }
